@@ -191,6 +191,24 @@ func probeFromTime(p timeArg) (string, string) {
 	return "", ""
 }
 
+// history of depth 2: the pair probe after another pair probe (a result must not depend on the previous call)
+type histArg struct {
+	First  pairArg `json:"first"`
+	Second pairArg `json:"second"`
+}
+
+func probeHist(h histArg) (string, string) {
+	_, _ = probePair(h.First)
+	_, _ = probeAdjacent(h.First.A)
+	if k, d := probePair(h.Second); k != "" {
+		return "after_previous_call:" + k, fmt.Sprintf("after the same operations on %v/%v: %s", h.First.A, h.First.B, d)
+	}
+	if k, d := probeAdjacent(h.Second.B); k != "" {
+		return "after_previous_call:" + k, fmt.Sprintf("after the same operations on %v/%v: %s", h.First.A, h.First.B, d)
+	}
+	return "", ""
+}
+
 func boundarySet() []ymd {
 	var s []ymd
 	for _, y := range []int64{-1, 0, 1, 2, 4, 100, 400, 1582, 1899, 1900, 1999, 2000, 2001, 2024, 9999} {
@@ -232,6 +250,22 @@ func main() {
 					}
 				}
 				w.Outcome(fmt.Sprintf("adjacent leap=%v", oracle.IsLeap(y)))
+			})
+		})
+		pHi := mc.NewProbe(r, "history2", nil, probeHist)
+		r.Phase("serial: all histories of two operation groups over 9 dates (ordering, Sub, DaysBetween, Add, AddDuration, Time on one pair, then on another pair which is judged)", "complete for depth 2 over the listed dates", func() {
+			hs := []ymd{{2024, 2, 28}, {2024, 2, 29}, {2024, 3, 1}, {2023, 12, 31}, {2024, 1, 1}, {1, 1, 1}, {0, 12, 31}, {9999, 12, 30}, {2000, 2, 29}}
+			r.Serial(func(w *mc.W) {
+				for _, a := range hs {
+					for _, b := range hs {
+						for _, c := range hs {
+							for _, d := range hs {
+								w.Point()
+								pHi.Do(w, histArg{pairArg{a, b}, pairArg{c, d}})
+							}
+						}
+					}
+				}
 			})
 		})
 		S := boundarySet()
